@@ -395,6 +395,102 @@ async fn post_handshake(ctx: &mut Ctx, ty: &str, cut: &str, fault: &str, order: 
 /// A peer comes back under the identity it announced while the socket still holds its old
 /// connection (ended but not yet noticed, or even still open - a half-open leftover): the
 /// old connection must be released, the new one must work, nobody else is disturbed.
+/// A send is waiting for a peer that does not read; another peer is in the middle of
+/// joining; then the first peer's connection fails. The failure is the first peer's alone:
+/// the send returns, the joiner becomes a peer, everybody else keeps working.
+async fn fail_while_joining(ctx: &mut Ctx, ty: &str, how: &str, nlive: usize, case: &Value) {
+    let sig = |k: &str| format!("C16/{k}/{ty}");
+    let mut sock = Sock::new(ty, None);
+    let mut live = Vec::new();
+    for k in 0..nlive {
+        match Peer::attach(&sock, peer_type_for(ty), Some(format!("live{k}").as_bytes())).await {
+            Ok(p) => live.push(p),
+            Err(e) => {
+                ctx.inconclusive(format!("C16 attach: {e}"));
+                return;
+            }
+        }
+    }
+    // for round-robin types the stalled peer has to be the next in the rotation: it joins
+    // last, and the earlier ones are served once first
+    let victim = match Peer::attach(&sock, peer_type_for(ty), Some(b"victim")).await {
+        Ok(p) => p,
+        Err(e) => {
+            ctx.inconclusive(format!("C16 attach: {e}"));
+            return;
+        }
+    };
+    if ty == "PUSH" || ty == "DEALER" {
+        for _ in 0..nlive {
+            let _ = sim::complete(sock.send(&rc::tagged(50, 0, &[4]))).await;
+        }
+    }
+    victim.conn.set_credit(Some(0));
+    let mut msg: Frames = Vec::new();
+    if ty == "ROUTER" {
+        msg.push(b"victim".to_vec());
+    }
+    msg.extend(rc::tagged(51, 0, &[200_000]));
+    let backend = sock.backend();
+    let (jconn, jr, jw) = Conn::new();
+    jconn.feed(&rc::handshake(peer_type_for(ty), Some(if how == "same-identity" { b"victim" } else { b"joiner" })));
+    let joined;
+    {
+        let mut send = Managed::new(sock.send(&msg));
+        if send.poll_once().is_ready() {
+            // the send did not have to wait (another peer was chosen): nothing to see here
+            ctx.count("fail_while_joining_not_reached");
+            return;
+        }
+        sim::settle().await;
+        let mut join = Managed::new(attach_future(backend, jr, jw));
+        let j1 = join.drive().await;
+        if matches!(j1, Ok(None)) {
+            ctx.count("joins_waiting_behind_a_blocked_send");
+        }
+        // the stalled peer's connection breaks
+        victim.conn.fail_writes(if how == "broken-pipe" { WriteFail::BrokenPipe } else { WriteFail::ConnectionReset });
+        victim.conn.set_credit(None);
+        // (a deadlock of the thread in here is caught by the case watchdog)
+        match send.drive().await {
+            Ok(Some(_)) => {}
+            other => {
+                ctx.violation_with(&sig("send-never-returns-after-peer-failure"), format!("send waiting for a peer whose connection then failed: {other:?}"), case.clone());
+                return;
+            }
+        }
+        joined = match j1 {
+            Ok(Some(r)) => Some(r),
+            _ => join.drive().await.ok().flatten(),
+        };
+    }
+    ctx.count("peer_failures_while_another_peer_joins");
+    match joined {
+        Some(Ok(id)) => {
+            let hs_len = crate::sock::library_handshake_len(&jconn.tap()).unwrap_or(0);
+            let joiner = Peer { conn: jconn, id, ty: peer_type_for(ty).to_string(), hs_len };
+            sim::settle().await;
+            if how == "same-identity" {
+                // which of the two connections owns the identity now is not ours to say; the
+                // others must be fine
+                let refs: Vec<&Peer> = live.iter().collect();
+                if let Err(e) = exchange_all(&mut sock, &refs, 300).await {
+                    ctx.violation_with(&sig("live-peer-disturbed"), format!("after a peer failed while another joined under its identity: {e}"), case.clone());
+                }
+                return;
+            }
+            let mut refs: Vec<&Peer> = live.iter().collect();
+            refs.push(&joiner);
+            if let Err(e) = exchange_all(&mut sock, &refs, 300).await {
+                ctx.violation_with(&sig("live-peer-disturbed"), format!("after a peer failed while another joined: {e}"), case.clone());
+            }
+        }
+        other => {
+            ctx.violation_with(&sig("join-failed-because-another-peer-failed"), format!("a healthy peer joining while another peer's connection failed: {other:?}"), case.clone());
+        }
+    }
+}
+
 async fn replaced(ctx: &mut Ctx, ty: &str, old_state: &str, nlive: usize, case: &Value) {
     let sig = |k: &str| format!("C16/{k}/{ty}");
     let mut sock = Sock::new(ty, None);
@@ -701,6 +797,13 @@ impl Prop for C16 {
                     }
                 }
             }
+            if matches!(ty, "PUSH" | "DEALER" | "ROUTER" | "REQ") {
+                for how in ["broken-pipe", "reset", "same-identity"] {
+                    for nlive in [0usize, 1, 3] {
+                        v.push(json!({"kind": "fail_join", "ty": ty, "how": how, "live": nlive}));
+                    }
+                }
+            }
             for old_state in ["ended-unnoticed", "parked", "half-open"] {
                 for nlive in [0usize, 2] {
                     v.push(json!({"kind": "replaced", "ty": ty, "old": old_state, "live": nlive}));
@@ -738,6 +841,11 @@ impl Prop for C16 {
             "post" => {
                 ctx.eval(1, true);
                 sim::run(post_handshake(ctx, &ty, s(case, "cut"), s(case, "fault"), s(case, "order"), u(case, "live") as usize, case));
+            }
+            "fail_join" => {
+                ctx.eval(hash_str(&case.to_string()), true);
+                ctx.sample("fail_join", || case.clone());
+                sim::run(fail_while_joining(ctx, &ty, s(case, "how"), u(case, "live") as usize, case));
             }
             "replaced" => {
                 ctx.eval(hash_str(&case.to_string()), true);
